@@ -313,3 +313,7 @@ mod tests {
         }
     }
 }
+
+#[cfg(kani)]
+#[path = "/verif/kani/mesh.rs"]
+pub(crate) mod verif_kani;
